@@ -556,6 +556,12 @@ func vpInvLog(k *vpConds, l *raftLog, term uint64) {
 		k.add(st <= term)
 		k.add(l.committed >= si)
 		k.add(l.applying < si)
+		// compaction never passes the applied index, snapshot pending or not
+		k.add(l.applied >= s)
+		if ms.snapshot != nil {
+			k.add(ms.snapshot.GetMetadata().GetIndex() <= l.applied)
+			k.add(ms.snapshot.GetMetadata().GetIndex() >= s)
+		}
 		prevU = st
 	} else {
 		k.add(!u.snapshotInProgress)
@@ -664,6 +670,35 @@ func vpInvProgress(k *vpConds, r *raft) {
 	}
 }
 
+// vpInvTally: a (pre-)candidate's recorded votes are still undecided; a won
+// tally makes it leader (or candidate), a lost one follower, in the same step.
+func vpInvTally(k *vpConds, r *raft) {
+	won, lost := true, false
+	for h := 0; h < 2; h++ {
+		half := r.trk.Voters[h]
+		if len(half) == 0 {
+			continue
+		}
+		var yes, missing uint64
+		for id := uint64(1); id <= 4; id++ {
+			if _, ok := half[id]; !ok {
+				continue
+			}
+			v, voted := r.trk.Votes[id]
+			if voted {
+				yes += vpB2U(v)
+			} else {
+				missing++
+			}
+		}
+		q := uint64(len(half)/2 + 1)
+		won = vpAnd(won, yes >= q)
+		lost = vpOr(lost, yes+missing < q)
+	}
+	k.add(!won)
+	k.add(!lost)
+}
+
 func vpInv(r *raft) bool {
 	k := &vpConds{}
 	vpInvInto(k, r)
@@ -697,9 +732,11 @@ func vpInvInto(k *vpConds, r *raft) {
 		k.add(r.lead == None)
 		k.add(r.Term >= 1)
 		k.add(r.leadTransferee == None)
+		vpInvTally(k, r)
 	case StatePreCandidate:
 		k.add(r.lead == None)
 		k.add(r.leadTransferee == None)
+		vpInvTally(k, r)
 	case StateLeader:
 		k.add(r.lead == r.id)
 		k.add(r.Term >= 1)
